@@ -255,6 +255,10 @@ def init_walkers(ctx):
                     m2 = m_binop(a, "@")
                     return [base(m2[0]), base(m2[1])] if m2 is not None else [base(a)]
 
+                if core is None or not dets:
+                    ctx.rep.note(f"{fi.qualname}: return #{k}: the returned block is not of the form array([orbitals] * n) "
+                                 f"or the test has no determinant; the tested-orbitals rule does not apply")
+                    continue
                 uses = core is not None and bool(dets) and all(
                     any(y is base(core) for y in operands(d)) for d in dets)
                 ctx.rep.ob("GUARD-1", f"{fi.qualname}: return #{k} returns the orbitals that were tested",
